@@ -179,17 +179,21 @@ def run_query(text=None, path=None, kind="ei", query="", nmax=4, repair=None):
     orig_cat = stmod_parser.StructureTransformer._assign_categorical
 
     def exact_categorical(self, args):
-        probabilities = args[2].children[1::2]
-        polynomials = args[2].children[0::2]
-        if len(probabilities) < len(polynomials):
-            try:
-                rest = Fr(1) - sum(Fr(str(p)) for p in probabilities)
-                tok = type(probabilities[0])
-                lit = f"{rest.numerator}/{rest.denominator}"
-                new = lit if tok is str else probabilities[0].update(value=lit)
-                args[2].children = list(args[2].children) + [new]
-            except Exception:  # symbolic probabilities: leave the code's own treatment
-                pass
+        """all literal probabilities of a choice, and the omitted last one, as exact rationals"""
+        children = list(args[2].children)
+        try:
+            lits = [Fr(str(children[i])) for i in range(1, len(children), 2)]
+
+            def tok(like, f):
+                lit = f"{f.numerator}/{f.denominator}"
+                return like.update(value=lit) if hasattr(like, "update") else lit
+            for n_, i in enumerate(range(1, len(children), 2)):
+                children[i] = tok(children[i], lits[n_])
+            if len(lits) < (len(children) + 1) // 2 and lits:
+                children.append(tok(children[1], Fr(1) - sum(lits)))
+            args[2].children = children
+        except Exception:  # symbolic probabilities: leave the code's own treatment
+            pass
         return orig_cat(self, args)
 
     res = {"kind": kind, "query": query, "repair": repair}
